@@ -135,7 +135,7 @@ func runC13(c *Ctx) {
 		want, _ := wfCheck(es, rc.MaxArray, int(rc.MaxIdent))
 		c.Count(w, true)
 		c.Dist(fmt.Sprintf("fixed/accepted=%v", rej < 0))
-		if rej != want {
+		if rej != want && !wfLateUTF8(es, rej, want, rc.MaxArray, int(rc.MaxIdent)) { // UTF-8 lateness inside one chunk is C10's finding, not a marker/reference matter
 			c.Fail(Replay{Kind: "events", Key: c13Key(es, rej, want), Input: map[string]string{"events": w}, Expect: fmt.Sprintf("first-invalid=%d", want), Got: fmt.Sprintf("rejected-at=%d", rej)})
 		}
 	}
@@ -178,7 +178,7 @@ func runC13(c *Ctx) {
 					s := evsString(es)
 					c.Count(s, true)
 					c.Dist(fmt.Sprintf("pending-refs/valid=%v", want < 0))
-					if rej != want {
+					if rej != want && !wfLateUTF8(es, rej, want, rc.MaxArray, int(rc.MaxIdent)) { // UTF-8 lateness inside one chunk is C10's finding, not a marker/reference matter
 						c.Fail(Replay{Kind: "events", Key: c13Key(es, rej, want), Input: map[string]string{"events": s}, Expect: fmt.Sprintf("first-invalid=%d", want), Got: fmt.Sprintf("rejected-at=%d", rej)})
 					}
 				}
@@ -196,7 +196,7 @@ func runC13(c *Ctx) {
 		if i < 3 {
 			c.Sample(s)
 		}
-		if rej != want {
+		if rej != want && !wfLateUTF8(es, rej, want, rc.MaxArray, int(rc.MaxIdent)) { // UTF-8 lateness inside one chunk is C10's finding, not a marker/reference matter
 			c.Fail(Replay{Kind: "events", Key: c13Key(es, rej, want), Input: map[string]string{"events": s}, Expect: fmt.Sprintf("first-invalid=%d", want), Got: fmt.Sprintf("rejected-at=%d", rej)})
 		}
 	}
